@@ -804,8 +804,6 @@ func c09CorrOpts() GenOpts {
 	o := c09GenOpts(true)
 	o.Times = false
 	o.Custom, o.CustomText = false, false
-	// record-type keys alias the CBE reader's buffer (found by this check): outside the builder model
-	o.Records = false
 	return o
 }
 
@@ -1131,7 +1129,7 @@ func runC09(c *Ctx) {
 					tm = append(tm, "map[interface{}]interface{}")
 				}
 			}
-			docs = append(docs, &c09Doc{Label: label, Fmt: format, Doc: doc, Tmpls: tm, Evs: fwd, Corr: corr && format == "cbe" && !c09HasKind(es, "rt", "rec")})
+			docs = append(docs, &c09Doc{Label: label, Fmt: format, Doc: doc, Tmpls: tm, Evs: fwd, Corr: corr && format == "cbe"})
 		}
 	}
 	for _, es := range c09Directed() {
